@@ -312,6 +312,10 @@ func cmdLife(args []string) {
 	enc := json.NewEncoder(w)
 	n, timeouts := 0, 0
 	for _, h := range hs {
+		if timeouts >= 3 {
+			// histories that never finish are observations (recorded below); three of them are enough for a verdict
+			break
+		}
 		for k := 0; k < *reps; k++ {
 			done := make(chan []interface{}, 1)
 			r := rand.New(rand.NewSource(*seed*7919 + int64(h.Hid)*31 + int64(k)))
